@@ -361,7 +361,7 @@ impl<'a> Gen<'a> {
                         let mut s = String::from("{ let (k, f) = v.var(); let _ = f; match k { ");
                         for (n, (vn, f)) in vs.iter().enumerate() {
                             let fts = self.u.inst_fields(*i, args, n);
-                            let _ = write!(s, "{} => {}, ", n, lit(f, &fts, format!("{}::{}", path, vn)));
+                            let _ = write!(s, "{} => {}, ", n, lit(f, &fts, format!("{}::{}", path, crate::ty::vident(vn))));
                         }
                         s.push_str("_ => panic!(\"bad variant in model value\") } }");
                         s
@@ -465,11 +465,11 @@ impl<'a> Gen<'a> {
                     let fts = self.u.inst_fields(i, args, n);
                     match f {
                         Fields::Unit => {
-                            let _ = write!(s, "{}::{} => Val::Var({}, vec![]), ", path, vn, n);
+                            let _ = write!(s, "{}::{} => Val::Var({}, vec![]), ", path, crate::ty::vident(vn), n);
                         }
                         Fields::Tuple(v) => {
                             let binds: Vec<String> = (0..v.len()).map(|j| format!("v{}", j)).collect();
-                            let _ = write!(s, "{}::{}({}) => Val::Var({}, vec![", path, vn, binds.join(", "), n);
+                            let _ = write!(s, "{}::{}({}) => Val::Var({}, vec![", path, crate::ty::vident(vn), binds.join(", "), n);
                             for (j, (decl, ft)) in v.iter().zip(&fts).enumerate() {
                                 let _ = write!(s, "{}, ", conv(decl, ft, format!("v{}", j)));
                             }
@@ -477,7 +477,7 @@ impl<'a> Gen<'a> {
                         }
                         Fields::Named(v) => {
                             let binds: Vec<String> = v.iter().enumerate().map(|(j, (name, _))| format!("{}: v{}", name, j)).collect();
-                            let _ = write!(s, "{}::{} {{ {} }} => Val::Var({}, vec![", path, vn, binds.join(", "), n);
+                            let _ = write!(s, "{}::{} {{ {} }} => Val::Var({}, vec![", path, crate::ty::vident(vn), binds.join(", "), n);
                             for (j, ((_, decl), ft)) in v.iter().zip(&fts).enumerate() {
                                 let _ = write!(s, "{}, ", conv(decl, ft, format!("v{}", j)));
                             }
